@@ -440,6 +440,9 @@ Proof.
   apply Nat.eqb_eq in E. subst l. symmetry. apply FY.
 Qed.
 
+Theorem fixpoint_unfold_iff w x : fixpoint G' w x <-> fixpoint G w x.
+Proof. split; [apply fixpoint_unfold|apply fixpoint_fold]. Qed.
+
 (** *** non-recursive grammars: the sum-product of every nonterminal is unchanged *)
 (** a ranked (non-recursive) grammar has exactly one solution: its stabilised Kleene iterate *)
 Theorem ranked_fixpoint_unique H w rank x : ranked H rank -> fixpoint H w x ->
@@ -529,6 +532,15 @@ Proof.
   - intros [|[|k]] r' Hk Hne; try congruence.
     + cbn in Hk. injection Hk as <-. intros ed [<-|[]]. discriminate.
     + destruct k; discriminate.
+Qed.
+Example unfolding_ranked_example :
+  unfolding ex_G 0 ex_rr [(2, [0; 1])] 1 [1] [] ex_c
+  /\ ranked ex_G (fun l => match l with 0 => 2 | 1 => 1 | _ => 0 end).
+Proof.
+  split; [exact unfolding_example|].
+  intros r [<-|[<-|[]]] _ ed; cbn.
+  - intros [<-|[<-|[]]]; cbn; [discriminate|lia].
+  - intros [<-|[]]; cbn. discriminate.
 Qed.
 Example unfolded_example :
   g_rules (unfolded ex_G 0 ex_rr [(2, [0; 1])] [1] [] ex_c)
